@@ -446,8 +446,14 @@ func bisyncTxnDebugSummary(cmds []bisyncAofCommand) string {
 	return strings.Join(parts, ",")
 }
 
-func (ro *RedisOutput) parseAofReplayUnits(replayQuit usync.WaitCloser, reader *bufio.Reader, startOffset int64, unitBuf chan *bisyncReplayUnit) error {
+func (ro *RedisOutput) parseAofReplayUnits(replayQuit usync.WaitCloser, reader *bufio.Reader, startOffset int64, unitBuf chan *bisyncReplayUnit) (err error) {
 	defer close(unitBuf)
+	// report a failure before the unit stream ends: a sender that sees the end first takes it for a clean one
+	defer func() {
+		if err != nil {
+			replayQuit.Close(err)
+		}
+	}()
 	defer ro.logger.Infof("scheme1 replay-unit parser is stopped")
 	keyResolver, closeResolver := ro.newBisyncCommandKeyResolver()
 	defer closeResolver()
